@@ -145,6 +145,17 @@ static void case_c05(const drvargs_t *a,long id){
       long bsz=vorbis_packet_blocksize(&L.vi,&op); if(bsz!=I.n) res_viol("C05","blocksize-differs","packet %d: vorbis_packet_blocksize %ld, model %ld",i,bsz,I.n);
     } else if(D) sp_dec_restart(D);
   }
+  /* the direct packet interface (vorbis_analysis(vb,&op)) must hand out the very same packets as addblock/flushpacket */
+  if(!managed && res_nviol()==0 && (id%3==0)){
+    enccfg_t c2=c; c2.direct=1; encres_t e2; res_eval(1);
+    if(enc_run(&c2,&e2)==0){
+      if(e2.pk.n!=er.pk.n) res_viol("C05","direct-interface-packet-count","vorbis_analysis(vb,&op) produced %d packets, flushpacket %d: %s",e2.pk.n,er.pk.n,desc);
+      else for(int i=3;i<er.pk.n;i++){ pkt_t *x=&er.pk.v[i],*y=&e2.pk.v[i];
+        if(x->bytes!=y->bytes||memcmp(x->data,y->data,x->bytes)||x->granulepos!=y->granulepos||x->e_o_s!=y->e_o_s||x->packetno!=y->packetno){ res_viol("C05","direct-interface-packet-differs","packet %d: direct %ld bytes granule %lld eos %d no %lld, flushpacket %ld bytes granule %lld eos %d no %lld: %s",i-3,y->bytes,(long long)y->granulepos,y->e_o_s,(long long)y->packetno,x->bytes,(long long)x->granulepos,x->e_o_s,(long long)x->packetno,desc); break; } }
+      res_count("direct_interface_encodes",1);
+    }
+    encres_free(&e2);
+  }
   /* window flags agree with the neighbours' block sizes */
   for(int i=0;i<na;i++) if(Wf[i]==2){
     if(i>0 && Wf[i-1] && pf[i]!=(Wf[i-1]==2)) res_viol("C05","window-flag-disagrees-with-neighbour","packet %d: previous-window flag %d but packet %d is %s: %s",i,pf[i],i-1,Wf[i-1]==2?"long":"short",desc);
